@@ -37,35 +37,46 @@ def run_case(c):
             return res
         b = grex.RegExpBuilder(c["test_cases"]) if c["id"] % 2 == 0 else grex.RegExpBuilder.from_test_cases(c["test_cases"])
         if "ops" in c:
-            # call history: apply exactly this sequence of setter calls, then build
-            for op in c["ops"]:
+            # call history: apply exactly this sequence of setter calls, then build -- in three calling styles that
+            # the fluent API makes equivalent: statements on one object; a chain through the returned objects with
+            # build() on the ORIGINAL object; the same chain with build() on the LAST returned object
+            def apply(b, op):
                 name = op[0]
                 if name in SETTERS:
-                    SETTERS[name](b)
-                elif name == "e":
-                    b.with_escaping_of_non_ascii_chars(bool(op[1]))
-                elif name == "nane":
-                    b.without_anchors()
-                elif name == "minrep":
-                    b.with_minimum_repetitions(op[1])
-                elif name == "minlen":
-                    b.with_minimum_substring_length(op[1])
-                elif name in ("minrep_bad", "minlen_bad"):
+                    return SETTERS[name](b)
+                if name == "e":
+                    return b.with_escaping_of_non_ascii_chars(bool(op[1]))
+                if name == "nane":
+                    return b.without_anchors()
+                if name == "minrep":
+                    return b.with_minimum_repetitions(op[1])
+                if name == "minlen":
+                    return b.with_minimum_substring_length(op[1])
+                if name in ("minrep_bad", "minlen_bad"):
                     try:
                         if name == "minrep_bad":
                             b.with_minimum_repetitions(op[1])
                         else:
                             b.with_minimum_substring_length(op[1])
-                        raise RuntimeError("no ValueError for " + name)
                     except ValueError:
-                        pass
-                elif name == "build":
+                        return b
+                    raise RuntimeError("no ValueError for " + name)
+                if name == "build":
                     b.build()
-                else:
-                    raise RuntimeError("unknown op " + name)
+                    return b
+                raise RuntimeError("unknown op " + name)
+
+            for op in c["ops"]:
+                apply(b, op)
             out = b.build()
             res["out"] = out
             res["out_again"] = b.build()
+            b2 = grex.RegExpBuilder(c["test_cases"])
+            cur = b2
+            for op in c["ops"]:
+                cur = apply(cur, op)
+            res["out_chain_original"] = b2.build()
+            res["out_chain_last"] = cur.build()
             return res
         flags = c["flags"]
         # setter order must not matter: every other pair of cases applies the setters in reverse order,
